@@ -1,5 +1,11 @@
 package main
 
+import (
+	"encoding/json"
+	"fmt"
+	"math"
+)
+
 // oracleTab accumulates (tag, element) -> values entries in first-seen order.
 type oracleTab struct {
 	m    map[string]Tok
@@ -22,4 +28,17 @@ func (o *oracleTab) tok() Tok {
 		out = append(out, o.m[k])
 	}
 	return TL(out...)
+}
+
+// addFloat records both directions of the opaque float mapping: IEEE bits <-> JSON text.
+func (o *oracleTab) addFloat(f float64) uint64 {
+	bits := math.Float64bits(f)
+	txt, _ := json.Marshal(f)
+	vals := make([]uint64, len(txt))
+	for i, c := range txt {
+		vals[i] = uint64(c)
+	}
+	o.add(fmt.Sprintf("f2t/%d", bits), []uint64{778, bits}, nil, vals)
+	o.add(fmt.Sprintf("t2f/%s", txt), []uint64{777}, txt, []uint64{bits})
+	return bits
 }
